@@ -83,7 +83,7 @@ def h1_shapes(maxsz, tier):
                 add("t0" + name, lay, l0, [], None, "POLLOUT", l0 % 2)
         # one chunk, every size, would-block
         if thor or name != "C":
-            for l0 in l0s:
+            for l0 in (l0s if thor or name != "B" else [0, 1, 2, 6, 10, 11]):
                 for c in allc:
                     add("c1" + name, lay, l0, [c], WB, None, 1 if (c == 3) else 0)
         # one chunk then close / error
@@ -96,7 +96,7 @@ def h1_shapes(maxsz, tier):
         if thor:
             l2, cs = l0s, allc
         else:
-            l2 = sorted(set([0, 1, s1 // 2, s1 - 1])) if name in ("A", "B", "E") else []
+            l2 = sorted(set([0, 1, s1 // 2, s1 - 1])) if name in ("A", "B") else []
             cs = few
         for l0 in l2:
             for c1 in cs:
